@@ -76,6 +76,13 @@ class C15(Prop):
                     c2 = self._case(rng, "axis")
                     c2.update(scale=sc, axis=ax, shape=[9, 10], dkind="lane-const")
                     cases.append(c2)
+        # arrays well above a few thousand elements with SHORT lanes (a block of many channels): per-axis results must
+        # still be the per-lane results, whatever the total size
+        for sc in SCALES:
+            for ax in (0, 1):
+                c = self._case(rng, "axis")
+                c.update(scale=sc, axis=ax, shape=rng.choice(([48, 64], [96, 40], [260, 12])), dkind="rand", loc="median")
+                cases.append(c)
         return cases
 
     def corpus(self):
